@@ -267,3 +267,116 @@ register("C05", malformed_routine(usable_oracle, ALL, "the malformed stream of C
 register("C09", wf_routine(["layers", "layer", "frameimg"], [("forest", 400, 20000), ("render", 100, 2000)],
          "random layer forests up to 8 layers with all visibility assignments (exhaustive enumeration in "
          "thorough tier); parent / is_visible of every layer and the frame image"))
+
+
+# ------------------------------------------------------------------------------------------
+# blend enumerations (C03, C17)
+
+def mul_un8(a, b):
+    t = a * b + 0x80
+    return ((t >> 8) + t) >> 8
+
+
+def run_driver_raw(reqs, profile="release"):
+    """run raw driver requests in parallel; returns (cases, inputs, extra lines by prefix)"""
+    import concurrent.futures
+    pre = "PROFILE " + ("checked" if profile == "relchk" else "release") + "\n"
+    n = min(vlib.CORES, max(1, len(reqs)))
+    chunks = [reqs[i::n] for i in range(n)]
+    def one(ch):
+        r = subprocess.run(["bash", "-c", "ulimit -s unlimited 2>/dev/null; exec " + vlib.ASEDRV],
+                           input=pre + "".join(x + "\n" for x in ch), capture_output=True, text=True)
+        if r.returncode != 0:
+            raise vlib.Broken("driver failed: " + r.stderr[-500:])
+        return r.stdout
+    cases, inputs, extra = {}, [], []
+    with concurrent.futures.ThreadPoolExecutor(max_workers=n) as ex:
+        for out in ex.map(one, chunks):
+            c, i, order = vlib.parse_cases(out)
+            for k in order:
+                cases[k] = c[k][:-1] if c[k] and c[k][-1] == "END" else c[k]
+            inputs += i
+            extra += [l for l in out.split("\n") if l.startswith("PIXELS ")]
+    return cases, inputs, extra
+
+
+def frame_pixels(lines):
+    for l in lines:
+        if l.startswith("frameimg 0 "):
+            parts = l.split(" ")[2].split(":")
+            if len(parts) >= 4:
+                return bytes.fromhex(parts[3])
+            return None
+    return None
+
+
+OPACITIES = [(255, 255), (255, 128), (0, 255), (255, 0), (1, 255), (127, 200), (254, 254), (128, 128)]
+
+
+def blend_routine(laws, rule):
+    def run(ctx, scale):
+        res = Result(rule)
+        res.sections = ["frameimg", "celA"]
+        side = 40
+        seeds = range(ctx.seed * 100 + scale * 10, ctx.seed * 100 + scale * 10 + (2 if ctx.quick else 24) * scale)
+        ops = OPACITIES[:6] if ctx.quick else OPACITIES
+        reqs = [f"GENBLEND {mode} {sd} {lo} {co} {side} {side} 1"
+                for mode in range(19) for sd in seeds for (lo, co) in ops]
+        for profile in ("release", "relchk"):
+            cases, inputs, extra = run_driver_raw(reqs, profile)
+            files = [(cid, bytes.fromhex(hx)) for cid, hx in inputs]
+            impl, _ = vlib.run_impl(vlib.load_lines(files, verbose=True), profile)
+            pix = {}
+            for l in extra:
+                _, cid, bh, sh = l.split(" ")
+                pix[cid] = (bytes.fromhex(bh), bytes.fromhex(sh))
+            sub = Result()
+            compare_cases(sub, files, cases, impl, ["frameimg", "celA"], usable_oracle,
+                          what=f"Frame::image of two-layer blend sprites [{profile}]")
+            for f in sub.oracle_failures + sub.corr_diffs:
+                f["build_profile"] = profile
+            res.merge(sub)
+            if not laws:
+                continue
+            # the mode-independent laws, checked on the implementation's pixels
+            for cid, data in files:
+                _, mode, sd, lo, co = cid.split("-")
+                mode, lo, co = int(mode), int(lo), int(co)
+                op = mul_un8(lo, co)
+                out = frame_pixels(impl.get(cid, []))
+                nrm = frame_pixels(impl.get(f"blend-0-{sd}-{lo}-{co}", []))
+                if out is None or nrm is None:
+                    continue
+                back, src = pix[cid]
+                for k in range(len(out) // 4):
+                    b = back[4 * k:4 * k + 4]
+                    s = src[4 * k:4 * k + 4]
+                    r = out[4 * k:4 * k + 4]
+                    res.evaluations += 1
+                    res._distinct.add(hash((mode, b, s, op)))
+                    bad = None
+                    if r[3] != nrm[4 * k + 3]:
+                        bad = f"alpha {r[3]} differs from Normal-mode alpha {nrm[4 * k + 3]}"
+                    elif b[3] != 0 and (s[3] == 0 or op == 0) and r != b:
+                        bad = "transparent source / zero opacity changed a visible backdrop"
+                    elif b[3] == 0 and r != s[:3] + bytes([mul_un8(s[3], op)]):
+                        bad = "over a transparent backdrop the result is not the source with scaled alpha"
+                    elif mode == 0 and op == 255 and s[3] == 255 and r != s:
+                        bad = "Normal at full opacity with an opaque source is not the source"
+                    if bad:
+                        res.oracle_failures.append({
+                            "id": cid, "what": bad, "input_hex": data.hex(), "build_profile": profile,
+                            "pixel": k, "mode": mode, "backdrop": b.hex(), "source": s.hex(),
+                            "opacity": op, "result": r.hex(), "call": "Frame::image"})
+                        break
+        res.distribution["modes"] = 19
+        res.distribution["opacity_pairs"] = len(ops)
+        res.distribution["pixels_per_sprite"] = side * side
+        return res
+    return run
+
+
+register("C17", blend_routine(True, "two-layer sprites enumerating (backdrop, source) pixel pairs (boundary-biased, "
+         "greys, r==g<b) for all 19 modes x opacity pairs, in release and overflow-checks+debug-assertions "
+         "builds; the four laws are evaluated on the implementation's pixels; distinct = distinct "
+         "(mode, backdrop, source, opacity) tuples"), profiles=("release", "relchk"))
